@@ -17,9 +17,10 @@ class TvResult:
         self.tlc_runs = 0
         self.wall = 0.0
         self.inv_violations = []   # (index, invariant)
+        self.skipped = []      # indices not validated because the rejection budget was used up
 
 
-def validate(module, cfg, executions, reset_record, max_reject=8, workers=1,
+def validate(module, cfg, executions, reset_record, max_reject=80, workers=1,
              timeout=1800, chunk=400, dfs=False, parallel=None):
     """executions: list of lists of records (dicts).  Each execution is
     prefixed with reset_record.  Returns TvResult.  A rejected execution is
@@ -31,10 +32,16 @@ def validate(module, cfg, executions, reset_record, max_reject=8, workers=1,
 
     off = 1 if reset_record is not None else 0
 
+    budget = {"rej": 0}      # every rejection costs one more TLC run: after max_reject of them (the check
+                             # has failed anyway) the remaining executions are left unvalidated
+
     def do_chunk(idx):
         out = []
         pending = list(idx)
         while pending:
+            if budget["rej"] >= max_reject:
+                out.append(("skip", pending))
+                break
             r = _run(module, cfg, [executions[i] for i in pending], reset_record,
                      workers, timeout, dfs)
             out.append(("run", r))
@@ -61,6 +68,7 @@ def validate(module, cfg, executions, reset_record, max_reject=8, workers=1,
             rec = executions[i][line - off] if line >= off else reset_record
             out.append(("acc", pending[:bad]))
             out.append(("rej", (i, line, rec, r["tail"], r["violated"])))
+            budget["rej"] += 1
             pending = pending[bad + 1:]
         return out
 
@@ -74,6 +82,8 @@ def validate(module, cfg, executions, reset_record, max_reject=8, workers=1,
                 res.wall += v["wall"]
             elif kind == "acc":
                 res.accepted.extend(v)
+            elif kind == "skip":
+                res.skipped.extend(v)
             else:
                 res.rejected.append(v)
     return res
